@@ -83,31 +83,33 @@ Record wire := { w_headers : dict; w_params : option dict; w_cookies : option di
 Definition truthy_dict (o : option dict) : dict :=
   match o with Some d => d | None => [] end.
 
-Definition prepare_headers (t : transport) (kw : kwargs) : transport * result dict :=
+Definition prepare_headers (t : transport) (kw : kwargs)
+  : transport * result (dict * option dict * option dict) :=
   let p0 := aupdate [] (truthy_dict (t_defaults t)) in
   let p1 := match k_headers kw with Some h => aupdate p0 h | None => p0 end in
-  (* temp_request_args_for_auth = {"headers": prepared.copy()} : ONLY headers *)
-  let tmp := {| sc_headers := Some p1; sc_params := None; sc_cookies := None |} in
+  (* temp_request_args_for_auth = {"headers": prepared.copy()} plus the caller's "params"/"cookies"
+     when present; after the plugin ran, "params"/"cookies" of its result are written back to kwargs *)
+  let tmp := {| sc_headers := Some p1; sc_params := k_params kw; sc_cookies := k_cookies kw |} in
   match t_auth t with
   | Some a =>
       match auth_step a tmp with
       | (a', Ok r) =>
           ({| t_defaults := t_defaults t; t_auth := Some a'; t_bearer := t_bearer t |},
-           Ok (match sc_headers r with Some h => h | None => p1 end))
+           Ok (match sc_headers r with Some h => h | None => p1 end, sc_params r, sc_cookies r))
       | (a', Err) =>
           ({| t_defaults := t_defaults t; t_auth := Some a'; t_bearer := t_bearer t |}, Err)
       end
   | None =>
       match t_bearer t with
-      | Some tok => (t, Ok (aset p1 s_Authorization (s_Bearer_sp ++ tok)))
-      | None => (t, Ok p1)
+      | Some tok => (t, Ok (aset p1 s_Authorization (s_Bearer_sp ++ tok), k_params kw, k_cookies kw))
+      | None => (t, Ok (p1, k_params kw, k_cookies kw))
       end
   end.
 
 Definition request (t : transport) (kw : kwargs) : transport * result wire :=
   match prepare_headers t kw with
-  | (t', Ok h) => (t', Ok {| w_headers := h; w_params := k_params kw; w_cookies := k_cookies kw;
-                             w_body := k_body kw |})
+  | (t', Ok (h, ps, cs)) => (t', Ok {| w_headers := h; w_params := ps; w_cookies := cs;
+                                       w_body := k_body kw |})
   | (t', Err) => (t', Err)
   end.
 
@@ -211,14 +213,6 @@ Definition meets (w : wire) (e : expect) (kw : kwargs) : Prop :=
 (* ------------------------------------------------------------------------------------- *)
 (* Guards of the partial theorem (executable).                                            *)
 
-(* F17a: an API key configured for query/cookie *)
-Fixpoint no_nonheader_key (p : plugin) : bool :=
-  match p with
-  | ApiKey _ loc _ => negb (str_eqb loc s_query) && negb (str_eqb loc s_cookie)
-  | Composite ps => forallb no_nonheader_key ps
-  | _ => true
-  end.
-
 (* F17b: two header names that differ only in case *)
 Fixpoint plugin_names (p : plugin) : list str :=
   match p with
@@ -241,6 +235,4 @@ Definition case_ok2 (a b : str) : bool := negb (str_eqb (lower_str a) (lower_str
 Definition case_consistent (l : list str) : bool :=
   forallb (fun a => forallb (case_ok2 a) l) l.
 
-Definition guard_F17a (t : transport) : bool :=
-  match t_auth t with Some a => no_nonheader_key a | None => true end.
 Definition guard_F17b (t : transport) (kw : kwargs) : bool := case_consistent (all_names t kw).
